@@ -444,6 +444,9 @@ pub fn run(args: &Args, rep: &mut Report) {
         if idx % args.nshards != args.shard {
             return;
         }
+        if rep.over_budget() {
+            return;
+        }
         rep.inc("cases");
         rep.inc(&format!("cases:{slice}"));
         _ = rep.distinct("nontrivial", &case.to_string());
